@@ -119,8 +119,11 @@ def _generate(groups, only, out, quiet, prune=False):
     reg += ['  | _ => none', '', 'end EPV.ModelReg', '']
     if write_if_changed(os.path.join(out, 'ModelRegistry.lean'), '\n'.join(reg)):
         changed.append('ModelRegistry.lean')
-    with open(mpath, 'w') as f:
+    # atomic: ties and oracles of other processes read this file while generators run
+    tmp = mpath + '.tmp.%d' % os.getpid()
+    with open(tmp, 'w') as f:
         json.dump(manifest, f, indent=1, sort_keys=True, default=str)
+    os.replace(tmp, mpath)
     return manifest, changed
 
 
